@@ -531,7 +531,7 @@ def run(tier: str) -> int:
             cs = dict(MaxLen=maxlen, Sharing=sharing, Tunes=tunes, Leak="none", Emit=False, NSlices=1, Slice=0, EmitLen=3)
             stages.model_check(chk, "Lifecycle", cs, ["NoLeak", "UpdateIsRefit"], properties=["ParamsStable"], wd=wd,
                                label=f"A:{sharing}-{tunes}-len{maxlen}")
-            nsl = 256 if tier == "quick" else 16
+            nsl = 320 if tier == "quick" else 22   # the alphabet grew to ~76 calls (pickle, reset): same replay volume as before
             # thorough: 2 of 16 slices per configuration (4 of 16 with 11 pairs took more than 50 min on a loaded machine)
             sl = [chk.seed % nsl, (chk.seed + 7) % nsl] if tier == "quick" else [(chk.seed + 3 * k) % nsl for k in range(2)]
             if tier == "thorough":  # longer histories: random walks of the same actions, every invariant checked at every step
